@@ -76,7 +76,7 @@ def render(n, sep=',', ws=None):
     if k == 'range':
         return S(n['a']) + w() + ':' + w() + S(n['b'])
     if k == 'errlit':
-        return n['c']
+        return n['c'] + ' '     # a following / or digit would otherwise be lexed into the code
     if k == 'omit':
         return ''
     if k == 'neg':
